@@ -119,6 +119,11 @@ func (r *standardRenderer) halt() {
 		return
 	}
 	r.done <- struct{}{}
+	// The listener has taken notice and returns. The ticker is stopped here,
+	// in order with start (both hold listenMtx): left to the listener, the stop
+	// could come after a restart had already reset the ticker, and the
+	// restarted renderer would never tick again.
+	r.ticker.Stop()
 	r.listening = false
 }
 
@@ -173,13 +178,13 @@ func (r *standardRenderer) kill() {
 	r.repaint()
 }
 
-// listen waits for ticks on the ticker, or a signal to stop the renderer.
+// listen waits for ticks on the ticker, or a signal to stop the renderer (halt
+// stops the ticker).
 func (r *standardRenderer) listen() {
 	for {
 		select {
 		case <-r.done:
 			verifPause("listen: stop received")
-			r.ticker.Stop()
 			return
 
 		case <-r.ticker.C:
